@@ -17,6 +17,7 @@ def run(ctx, sess):
     P = sess.prog('default')
     ctx.rule('C19.1', 'read-only by construction: "r" -> O_RDONLY; reader and copy open with "r" except on the not-closed branch; the "r" arm of jls_raw_open does not enable writing')
     ctx.rule('C19.2', 'guarded reachability: from reader API roots the write primitive is reachable only through jls_rd_open or through close paths guarded by buffers that only writer/repair code allocates')
+    ctx.rule('C19.4', 'what pointer repair changes in memory is persisted: from every store to a track head offset in jls_track_repair_pointers every success path passes jls_track_wr_head')
     ctx.rule('C19.3', 'repair ends closed: END, close and read-only reopen lie on every path from the not-closed branch to the published instance; that branch tests the tag found by the backward scan')
     fo = P.fn('jls_bk_fopen')
     ctx.saw(fo)
@@ -148,6 +149,23 @@ def run(ctx, sess):
                   ('target' if e2.k == 'ret' and ret_class(rf, e2, facts) in ('zero',) else None)) if closes else 'no close'
     ctx.ob('C19.2', w is None, rf.name, 'repair closes the temporary writer track before returning success', rf.where(),
            'closed on every success path' if w is None else 'a repaired track stays open for writing in the reader', w.render() if (w and not isinstance(w, str)) else None)
+    # ---- C19.4
+    rp = P.fn('jls_track_repair_pointers')
+    ctx.saw(rp)
+    n4 = 0
+    for ev in rp.stores():
+        l0 = strip_casts(ev.store_parts()[0])
+        p_ = rp.path(l0)
+        if p_ is None or '.head_offsets' not in tuple(p_):
+            continue
+        n4 += 1
+        w = find_path(rp, ev, lambda e2, facts: 'stop' if (e2.k == 'call' and e2.callee == 'jls_track_wr_head') else
+                      ('target' if e2.k == 'ret' and ret_class(rp, e2, facts) in ('zero', 'unknown') else None))
+        ctx.ob('C19.4', w is None, rp.name, 'head table change `%s` is written back' % show(ev.e)[:50], ev.where(),
+               'jls_track_wr_head on every success path' if w is None else
+               'the repaired head table can stay in memory only: the repairing open uses it, later opens read the stale table from disk and return different results',
+               w.render() if w else None)
+    ctx.floor('head table stores in pointer repair', n4, 2)
     # ---- C19.3 (shares the sequence with C03.b)
     from .c03 import rb
     class Sub:
